@@ -42,6 +42,7 @@ def run(ctx) -> None:
     ctx.reuse("C01.composition", c05.mix_args)
     ctx.reuse("C01.composition", c05.mix_formula)
     ctx.reuse("C01.composition", c05.local_write)
+    ctx.reuse("C01.composition", c05.owner)
 
 
 # ------------------------------------------------------------------------ aspirate / dispense
@@ -337,7 +338,14 @@ def pair_distribute(ctx, rule: str) -> None:
     lenW = ast.Call(func=ast.Name(id="len", ctx=ast.Load()), args=[aw], keywords=[])
     ap = to_poly(amount)
     vsym = Poly.symbol(ast.Name(id="volume", ctx=ast.Load()))
-    ok_amt = ap == vsym * Poly.symbol(lenD) or ap == vsym * Poly.symbol(lenW)
+    from .common import flatten_orders
+
+    # len() of the booked wells counts wells only if that sequence is flat; for a 2-D block it counts rows
+    flatW = bool(flatten_orders(aw))
+    ok_amt = ap == vsym * Poly.symbol(lenD) or (ap == vsym * Poly.symbol(lenW) and flatW)
+    if ap == vsym * Poly.symbol(lenW) and not flatW:
+        ctx.rep.refuted(rule, f"{cbase}/amount-2d", f"the amount removed from the source is volume * len(`{show(aw)[:50]}`), and that sequence is not flattened: for a 2-D block of destination wells "
+                        "len() is the number of rows, so less is removed from the source than is added to the destinations", where=f.where(rem.call))
     counted_dedup = bool(dedup) and ap == vsym * Poly.symbol(lenD)
     ctx.rep.check(not counted_dedup, rule, f"{cbase}/occurrences", "destination occurrences are not de-duplicated before counting",
                   f"the destination position list is de-duplicated/filtered ({dedup}) before it is counted: repeated wells are charged on the destination but not on the source", where=w)
@@ -363,7 +371,7 @@ def pair_distribute(ctx, rule: str) -> None:
         x = comp.left.elts[0]
         n = comp.right
         if isinstance(x, ast.Call) and isinstance(x.func, ast.Attribute) and x.func.attr == "get_well_composition" and is_name(x.func.value, "source") and len(x.args) == 1:
-            ok_c = same(x.args[0], sw) and (to_poly(n) == Poly.symbol(lenD) or to_poly(n) == Poly.symbol(lenW))
+            ok_c = same(x.args[0], sw) and (to_poly(n) == Poly.symbol(lenD) or (to_poly(n) == Poly.symbol(lenW) and flatW))
     ctx.rep.check(ok_c, rule, f"{cbase}/composition", "every destination receives the composition of the source column",
                   f"compositions `{show(comp)[:100] if comp is not None else None}` is not [source.get_well_composition(<source well>)] * (number of destinations)", where=f.where(add.call))
 
